@@ -485,10 +485,10 @@ Theorem vote_fixed_point_unweighted kv indptr indices m labels index labels' :
             local_max (nbrs_unit indptr indices i) labels' i.
 Proof.
   intros H Hnd Hsame. unfold vote_update in H.
-  destruct (vote_loop kv indptr indices (repeat 1%Q m) index (labels, repeat 0%Q (length labels), []))
+  destruct (vote_loop kv indptr indices (repeat 1%Q m) index (labels, repeat 0%Q (votes_size kv labels), []))
     as [[[l1 v1] n1]|] eqn:El; [|discriminate].
   inversion H; subst l1. clear H.
-  pose proof (zero_votes_repeat (length labels)) as Hz.
+  pose proof (zero_votes_repeat (votes_size kv labels)) as Hz.
   destruct (vote_loop_frame _ _ _ _ _ _ _ _ _ _ _ El Hz) as [_ [Hlen [Hframe _]]].
   assert (Heq : labels' = labels).
   { apply nth_ext with (d := 0%Z) (d' := 0%Z); [exact Hlen|]. intros v _.
@@ -502,54 +502,56 @@ Proof.
 Qed.
 
 (** ** Weighted path of a kernel that reads the weight at the edge position and clears votes_neigh
-    (NOT the current source, see [vote_weighted_refuted]); weights non-negative. *)
+    (the repaired source; not the legacy kernel, see [vote_weighted_refuted_legacy]); weights non-negative. *)
 
-Lemma node_weighted_fixed indptr indices data i labels votes vn labels1 votes1 vn1 :
+Lemma node_weighted_fixed kv indptr indices data i labels votes vn labels1 votes1 vn1 :
+  wpos kv = true -> clr kv = true ->
   Forall (fun w => 0 <= w)%Q data ->
-  vote_node {| wpos := true; clr := true |} indptr indices data i (labels, votes, vn) = VOk (labels1, votes1, vn1) ->
+  vote_node kv indptr indices data i (labels, votes, vn) = VOk (labels1, votes1, vn1) ->
   zero_votes votes -> True ->
   True /\
   (nthz labels1 i = nthz labels i ->
    has_labelled_neighbour (nbrs_weighted indptr indices data i) labels ->
    local_max (nbrs_weighted indptr indices data i) labels i).
 Proof.
-  intros Hnn H Hz _. split; [exact I|].
+  intros Hw Hc Hnn H Hz _. split; [exact I|].
   destruct (vote_node_ok _ _ _ _ _ _ _ _ _ _ _ H Hz) as [_ [_ [_ [_ [Hf Hcase]]]]].
   intros Hkeep Hnb.
   apply (node_local_max _ labels labels1 i (node_ln indptr indices labels i)
-                        (node_eff {| wpos := true; clr := true |} indptr indices data i vn)); auto.
+                        (node_eff kv indptr indices data i vn)); auto.
   - unfold node_ln, nbrs_weighted. rewrite map_map. reflexivity.
   - intros l. unfold nbrs_weighted. rewrite total_vote_map.
-    unfold node_eff, node_ln, node_ws. simpl. rewrite wsum_map. reflexivity.
-  - unfold node_eff, node_ws. simpl. rewrite Forall_forall. intros w Hw. apply in_map_iff in Hw.
-    destruct Hw as [j [<- Hj]]. rewrite Forall_forall in Hf. destruct (Hf j Hj) as [_ Hlt]. simpl in Hlt.
+    unfold node_eff, node_ln, node_ws. rewrite Hw, Hc. simpl. rewrite wsum_map. reflexivity.
+  - unfold node_eff, node_ws. rewrite Hw, Hc. simpl. rewrite Forall_forall. intros w Hw'. apply in_map_iff in Hw'.
+    destruct Hw' as [j [<- Hj]]. rewrite Forall_forall in Hf. destruct (Hf j Hj) as [_ Hlt]. rewrite Hw in Hlt.
     rewrite Forall_forall in Hnn. apply Hnn. unfold nthq. apply nth_In. exact Hlt.
 Qed.
 
-Theorem vote_fixed_point_weighted_repaired indptr indices data labels index labels' :
+Theorem vote_fixed_point_weighted kv indptr indices data labels index labels' :
+  wpos kv = true -> clr kv = true ->
   Forall (fun w => 0 <= w)%Q data ->
-  vote_update {| wpos := true; clr := true |} indptr indices data labels index = VOk labels' ->
+  vote_update kv indptr indices data labels index = VOk labels' ->
   NoDup index ->
   (forall i, In i index -> nthz labels' i = nthz labels i) ->
   labels' = labels /\
   forall i, In i index -> has_labelled_neighbour (nbrs_weighted indptr indices data i) labels' ->
             local_max (nbrs_weighted indptr indices data i) labels' i.
 Proof.
-  intros Hnn H Hnd Hsame. unfold vote_update in H.
-  destruct (vote_loop {| wpos := true; clr := true |} indptr indices data index (labels, repeat 0%Q (length labels), []))
+  intros Hw Hc Hnn H Hnd Hsame. unfold vote_update in H.
+  destruct (vote_loop kv indptr indices data index (labels, repeat 0%Q (votes_size kv labels), []))
     as [[[l1 v1] n1]|] eqn:El; [|discriminate].
   inversion H; subst l1. clear H.
-  pose proof (zero_votes_repeat (length labels)) as Hz.
+  pose proof (zero_votes_repeat (votes_size kv labels)) as Hz.
   destruct (vote_loop_frame _ _ _ _ _ _ _ _ _ _ _ El Hz) as [_ [Hlen [Hframe _]]].
   assert (Heq : labels' = labels).
   { apply nth_ext with (d := 0%Z) (d' := 0%Z); [exact Hlen|]. intros v _.
     destruct (in_dec Nat.eq_dec v index) as [Hin|Hnin]; [apply Hsame; exact Hin|apply Hframe; exact Hnin]. }
   split; [exact Heq|]. rewrite Heq. intros i Hi Hnb.
-  refine (vote_loop_fixed {| wpos := true; clr := true |} indptr indices data (fun _ => True)
+  refine (vote_loop_fixed kv indptr indices data (fun _ => True)
             (fun lab i => has_labelled_neighbour (nbrs_weighted indptr indices data i) lab ->
                           local_max (nbrs_weighted indptr indices data i) lab i)
             _ index labels _ [] labels' v1 n1 El Hz I Hnd Hsame i Hi Hnb).
-  intros. eapply node_weighted_fixed; eassumption.
+  intros. eapply (node_weighted_fixed kv); eassumption.
 Qed.
 
 (** ** Labels only move around: every label after a sweep was a label before it. *)
@@ -560,13 +562,13 @@ Theorem vote_update_labels_from_input kv indptr indices data labels index labels
   (forall x, In x labels' -> In x labels).
 Proof.
   intros H. unfold vote_update in H.
-  destruct (vote_loop kv indptr indices data index (labels, repeat 0%Q (length labels), []))
+  destruct (vote_loop kv indptr indices data index (labels, repeat 0%Q (votes_size kv labels), []))
     as [[[l1 v1] n1]|] eqn:El; [|discriminate].
   inversion H; subst l1.
   destruct (vote_loop_frame _ _ _ _ _ _ _ _ _ _ _ El (zero_votes_repeat _)) as [_ [H1 [H2 H3]]]. auto.
 Qed.
 
-(** ** The current kernel on a weighted graph: a fixed point holding a non-maximal label.
+(** ** The LEGACY kernel on a weighted graph: a fixed point holding a non-maximal label.
     Graph: 1 -(1)- 3 -(2)- 2, node 0 isolated; seeds 1:0, 2:1; node 3 keeps label 0 although label 1
     has weight 2 against 1 (the kernel pairs neighbour 1 with data[1] = 2 and neighbour 2 with data[2] = 1). *)
 Definition wit_indptr := [0; 0; 1; 2; 4].
@@ -575,15 +577,14 @@ Definition wit_data : list Q := [1; 2; 1; 2]%Q.
 Definition wit_labels : list Z := [-1; 0; 1; 0]%Z.
 Definition wit_index := [0; 3].
 
-Theorem vote_weighted_refuted_current :
-  let kv := {| wpos := false; clr := false |} in
-  vote_update kv wit_indptr wit_indices wit_data wit_labels wit_index = VOk wit_labels /\
+Theorem vote_weighted_refuted_legacy :
+  vote_update_legacy wit_indptr wit_indices wit_data wit_labels wit_index = VOk wit_labels /\
   NoDup wit_index /\ Forall (fun w => 0 < w)%Q wit_data /\
   In 3 wit_index /\
   has_labelled_neighbour (nbrs_weighted wit_indptr wit_indices wit_data 3) wit_labels /\
   ~ local_max (nbrs_weighted wit_indptr wit_indices wit_data 3) wit_labels 3.
 Proof.
-  cbv zeta. split; [vm_compute; reflexivity|].
+  split; [vm_compute; reflexivity|].
   split; [repeat constructor; simpl; intuition; discriminate|].
   split; [repeat constructor|].
   split; [simpl; auto|].
